@@ -395,6 +395,114 @@ async def twins(root, encrypted):
     return problems
 
 
+async def many_snapshots(root, encrypted, n_snapshots):
+    """MORE snapshots than any window / batch / pool of the loader holds: every one of them is loaded (listed), and a clean by a
+    shared-key user (or the owner) removes nothing that any of them references"""
+    global CACHE_MODE
+    CACHE_MODE = 'none'
+    problems = []
+    users = await setup_users(root, encrypted)
+    owner = users[0]
+    cleaner = next((u for u in users if u.family == owner.family and u.name != owner.name), owner)
+    src = root / 'src'
+    src.mkdir()
+    r = await open_repo(root, owner)
+    names = []
+    with lib.quiet():
+        for i in range(n_snapshots):
+            (src / 'f').write_bytes(lib.content(9000 + i, 70))          # every snapshot has chunks of its own
+            names.append((await r.snapshot(paths=[src])).name)
+    await r.close()
+    seen, locs = await loaded(root, cleaner)
+    if len([n for n in names if n in seen]) != n_snapshots:
+        problems.append({'problem': 'not every snapshot of the family is loaded', 'loaded': len([n for n in names if n in seen]), 'stored': n_snapshots})
+    seen_o, locs_o = await loaded(root, owner)
+    rc = await open_repo(root, cleaner)
+    with lib.quiet():
+        await rc.clean()
+    await rc.close()
+    present = set(Local(root / 'repo').list_files('data/'))
+    # the truth about references is read WITHOUT the loader: every snapshot object is opened directly
+    ro = await open_repo(root, owner)
+    referenced = set()
+    for path in Local(root / 'repo').list_files('snapshots/'):
+        body = ro._decrypt_snapshot_body(Local(root / 'repo').download(path))
+        referenced |= {ro._chunk_digest_to_location(d) for d in body['chunks']}
+    await ro.close()
+    if referenced - present:
+        problems.append({'problem': 'clean removed chunks that a stored snapshot references', 'n': len(referenced - present), 'snapshots': n_snapshots, 'cleaned_by': cleaner.name})
+    return problems
+
+
+async def transient_listing_fault(root, encrypted):
+    """ONE transient I/O error while the local backend walks snapshots/ during a delete: the command either fails having removed
+    nothing, or completes having removed exactly what a fault-free delete removes"""
+    import errno
+    import replicat.backends.local as local_mod
+    import replicat.utils.fs as fs_mod
+    global CACHE_MODE
+    CACHE_MODE = 'none'
+    problems = []
+    users = await setup_users(root, encrypted)
+    user = users[0]
+    src = root / 'src'
+    src.mkdir()
+    r = await open_repo(root, user)
+    snaps = []
+    snap_dir = (root / 'repo' / 'snapshots').resolve()
+    with lib.quiet():
+        for i in range(40):
+            (src / 'a').write_bytes(lib.content(601 + i, 300))
+            snaps.append(await r.snapshot(paths=[src]))
+            if i >= 3 and len([p for p in snap_dir.iterdir() if p.is_dir()]) >= 3:
+                break
+    await r.close()
+    # the walk visits the sub-directories of snapshots/ in os.scandir order: the snapshot to delete lives in the FIRST one visited,
+    # the error hits the LAST one (so whatever was listed before the error has already been handed to the command)
+    order = [Path(e.path).resolve() for e in os.scandir(snap_dir) if e.is_dir()]
+    s1 = next(sn for sn in snaps if any(sn.name in f.name for f in order[0].iterdir()))
+    for which, victim_dir in enumerate([order[-1]]):
+        fired = {'n': 0}
+        real_scandir = os.scandir
+
+        def scandir(path='.'):
+            p = Path(os.fspath(path)).resolve()
+            if p == victim_dir and fired['n'] == 0:
+                fired['n'] = 1
+                raise OSError(errno.EIO, 'Input/output error', str(p))
+            return real_scandir(path)
+
+        class FakeOS:
+            def __getattr__(self, name):
+                return scandir if name == 'scandir' else getattr(os, name)
+
+        before = set(Local(root / 'repo').list_files('data/'))
+        rd = await open_repo(root, user)
+        local_mod.os, fs_mod.os = FakeOS(), FakeOS()
+        completed = True
+        try:
+            with lib.quiet():
+                await rd.delete_snapshots([s1.name], confirm=False)
+        except BaseException:
+            completed = False
+        finally:
+            local_mod.os, fs_mod.os = os, os
+        await rd.close()
+        after = set(Local(root / 'repo').list_files('data/'))
+        listed = [p for p in Local(root / 'repo').list_files('snapshots/')]
+        gone = not any(s1.name in p for p in listed)
+        _, locs = await loaded(root, user)
+        if completed or gone:
+            if after - set(locs):
+                problems.append({'problem': 'delete completed under a transient listing fault but left chunks only the deleted snapshot referenced', 'n': len(after - set(locs))})
+            if set(locs) - after:
+                problems.append({'problem': 'delete under a transient listing fault removed referenced chunks', 'n': len(set(locs) - after)})
+            break
+        elif after != before:
+            problems.append({'problem': 'a failed delete removed chunks', 'n': len(before - after)})
+    return problems
+
+
 def main():
     payload = lib.read_payload()
     tier, seed, prop = payload.get('tier', 'quick'), int(payload.get('seed', 0)), payload.get('prop', 'C02')
@@ -422,6 +530,28 @@ def main():
                     failures.append({'id': f'hist_{int(encrypted)}_{h}', 'class': None, 'case': case, 'detail': probs[:3]})
                 if len(samples) < 3:
                     samples.append(case)
+    if prop in ('C06', 'C08', 'C02'):
+        for encrypted in ((True, False) if prop != 'C06' else (True,)):
+            with lib.scratch('vf_hist_') as root:
+                cases += 1
+                try:
+                    probs = asyncio.run(many_snapshots(root, encrypted, 45 if tier == 'thorough' else 21))
+                except Exception as e:
+                    import traceback
+                    probs = [{'problem': 'exception', 'error': f'{type(e).__name__}: {e}'[:300], 'tb': traceback.format_exc()[-600:]}]
+                if probs:
+                    failures.append({'id': f'many_snapshots_{int(encrypted)}', 'class': None, 'case': {'encrypted': encrypted, 'scenario': 'more snapshots than any loader window'}, 'detail': probs[:3]})
+    if prop in ('C08', 'C02'):
+        for encrypted in (False,):
+            with lib.scratch('vf_hist_') as root:
+                cases += 1
+                try:
+                    probs = asyncio.run(transient_listing_fault(root, encrypted))
+                except Exception as e:
+                    import traceback
+                    probs = [{'problem': 'exception', 'error': f'{type(e).__name__}: {e}'[:300], 'tb': traceback.format_exc()[-600:]}]
+                if probs:
+                    failures.append({'id': 'transient_listing_fault', 'class': None, 'case': {'encrypted': encrypted, 'scenario': 'one I/O error while listing snapshots/ during delete'}, 'detail': probs[:3]})
     if prop in ('C07', 'C08', 'C02'):
         for encrypted in (True, False):
             with lib.scratch('vf_hist_') as root:
